@@ -21,35 +21,81 @@ fn coords(expr: &str, offset: usize) -> (usize, usize) {
 }
 
 /// Independent rendering of the message layout.
-fn render(reason: &str, expr: &str, line: usize, column: usize) -> String {
-    let mut out = format!("{} (line {}, column {})\n", reason, line, column);
-    let caret = format!("{}^\n", " ".repeat(column));
-    let mut lines: Vec<&str> = expr.split('\n').collect();
-    let n = lines.len();
-    let mut placed = false;
-    for (i, l) in lines.drain(..).enumerate() {
-        out.push_str(l);
-        if i + 1 < n {
-            out.push('\n');
-            if i == line {
-                out.push_str(&caret);
-                placed = true;
+/// What the statement says about the rendered message, and nothing more: it shows the
+/// reason (the text the reason itself prints), the coordinates (both numbers, in front of
+/// the expression block; where the words "line" / "column" are used, next to the right word)
+/// and the expression with a caret line -- `column` blanks and a `^` -- directly under line
+/// `line` of the expression.  The wording around these parts is not pinned down.
+fn layout_problem(e: &ImpErr, expr: &str, line: usize, column: usize) -> Option<String> {
+    let d = &e.display;
+    if e.reason_display.trim().is_empty() || !d.contains(&e.reason_display) {
+        return Some("the reason is not shown".into());
+    }
+    // the expression block: the lines of the expression in order, the caret line after line `line`
+    let caret = format!("{}^", " ".repeat(column));
+    let expr_lines: Vec<&str> = expr.split('\n').collect();
+    let shown: Vec<&str> = d.split('\n').collect();
+    let mut found = None;
+    for start in 0..shown.len() {
+        // does the block start here?
+        let mut i = start;
+        let mut ok = true;
+        for (k, l) in expr_lines.iter().enumerate() {
+            if shown.get(i) != Some(l) {
+                // the block may begin in the middle of a header line only if it is the whole line: no
+                ok = false;
+                break;
+            }
+            i += 1;
+            if k == line.min(expr_lines.len() - 1) {
+                if shown.get(i) != Some(&caret.as_str()) {
+                    ok = false;
+                    break;
+                }
+                i += 1;
+            }
+        }
+        if ok {
+            found = Some(start);
+            break;
+        }
+    }
+    let start = match found {
+        Some(s) => s,
+        None => return Some(format!("no expression block with a caret line of {} blanks under line {}", column, line)),
+    };
+    // the coordinates, in what precedes the block (the reason text itself set aside)
+    let header = shown[..start].join("\n").replacen(&e.reason_display, "", 1);
+    let lower = header.to_lowercase();
+    let number_after = |word: &str| -> Option<usize> {
+        let at = lower.find(word)? + word.len();
+        let digits: String = lower[at..].chars().skip_while(|c| !c.is_ascii_digit()).take_while(|c| c.is_ascii_digit()).collect();
+        digits.parse().ok()
+    };
+    match (number_after("line"), number_after("column")) {
+        (Some(l), Some(c)) => {
+            if (l, c) != (line, column) {
+                return Some(format!("the message says line {} column {}", l, c));
+            }
+        }
+        _ => {
+            let mut numbers: Vec<usize> = vec![];
+            let mut cur = String::new();
+            for ch in header.chars().chain(std::iter::once(' ')) {
+                if ch.is_ascii_digit() {
+                    cur.push(ch);
+                } else if !cur.is_empty() {
+                    numbers.extend(cur.parse::<usize>().ok());
+                    cur.clear();
+                }
+            }
+            let has_both = if line == column { numbers.iter().filter(|n| **n == line).count() >= 2 } else { numbers.contains(&line) && numbers.contains(&column) };
+            if !has_both {
+                return Some("the coordinates are not shown".into());
             }
         }
     }
-    if !placed {
-        out.push('\n');
-        out.push_str(&caret);
-    }
-    out
-}
-
-fn reason_text(e: &ImpErr) -> String {
-    // "<Kind> error: <message>" is everything in front of " (line "
-    match e.display.find(" (line ") {
-        Some(i) => e.display[..i].to_string(),
-        None => String::new(),
-    }
+    None
 }
 
 /// Invariants every error record must satisfy.
@@ -70,12 +116,8 @@ fn record_invariants(sub: &str, text: &str, e: &ImpErr, doc: &str) -> CaseResult
             case,
         ));
     }
-    // the reason prefix is taken from the message itself; layout is recomputed
-    let reason = reason_text(e);
-    let want = render(&reason, text, l, c);
-    let kind_ok = if e.is_parse { reason.starts_with("Parse error: ") } else { reason.starts_with("Runtime error: ") };
-    if e.display != want || !kind_ok || reason.len() < 14 {
-        return Err(Failure::new(sub, "message-layout-wrong", format!("rendered {:?} expected {:?}", e.display, want), case));
+    if let Some(problem) = layout_problem(e, text, l, c) {
+        return Err(Failure::new(sub, "message-layout-wrong", format!("{}: rendered {:?}", problem, e.display), case));
     }
     Ok(())
 }
@@ -417,7 +459,7 @@ fn check_pair(sub: &str, text: &str, doc: &str, st: &mut Stats) -> CaseResult {
     match search_text(&text, &doc) {
         ImpOut::SearchErr(e) => {
             if e.is_parse {
-                let sig = if e.detail.contains("valid number") || e.detail.contains("valid f64") { "nonfinite-aggregate-as-parse-error" } else { "runtime-failure-as-parse-error" };
+                let sig = if crate::imp::reference_says_nonfinite(&text, &doc) || e.detail.contains("valid number") || e.detail.contains("valid f64") { "nonfinite-aggregate-as-parse-error" } else { "runtime-failure-as-parse-error" };
                 return Err(Failure::new(sub, sig, format!("search failed with {} (expression {:?})", e.detail, e.expression), json!({"expression": text, "document": doc})));
             }
             record_invariants(sub, &text, &e, &doc)?;
